@@ -12,6 +12,8 @@ import SfntV.Proofs.TotalMaxp
 import SfntV.Proofs.TotalGdef
 import SfntV.Proofs.TotalHeader
 import SfntV.Generated.Total
+import SfntV.Proofs.TotalGlyfDec
+import SfntV.Proofs.TotalGlyfLazy
 
 namespace SfntV.Props.C02
 open SfntV SfntV.Total
@@ -124,5 +126,85 @@ theorem C02_gdef_alloc_fails : ¬ C02_gdef_alloc_proportional := fun h =>
 /-- The literals in the models are the constants found in the Go source on this run. -/
 theorem C02_facts : Gen.kernMinSubtableLen = 14 ∧ Gen.kernFlagMask = 0xF5 ∧ Gen.kernFlagValue = 1 ∧
     Gen.headerMaxTables = 280 := by decide
+
+/-! # Round 2: further tier-A decoders in checked-index style
+
+## glyf: decodeLoca, glyf.Decode (per-glyph slicing), decodeGlyph, removePadding -/
+
+/-- `decodeLoca` (both formats, any format number) returns a value or an error. -/
+theorem C02_loca_no_panic (fmt : Int) (loca : Bytes) (glyfLen : Nat) :
+    (GlyfDec.decodeLoca fmt loca glyfLen).noPanic := GlyfDec.decodeLoca_noPanic fmt loca glyfLen
+
+/-- … in at most |loca|/2 steps and slice elements; the offsets it returns are non-empty, monotone
+and inside the glyf table (this is what makes `GlyfData[offs[i]:offs[i+1]]` safe). -/
+theorem C02_loca_cost {fmt : Int} {loca : Bytes} {gl : Nat} {offs : List Nat} {c : Cost}
+    (h : GlyfDec.decodeLoca fmt loca gl = .ok (offs, c)) :
+    (c.steps ≤ loca.length / 2 ∧ c.alloc ≤ loca.length / 2) ∧
+      (offs ≠ [] ∧ offs.Pairwise (· ≤ ·) ∧ ∀ x ∈ offs, x ≤ gl) :=
+  ⟨GlyfDec.decodeLoca_cost h, GlyfDec.decodeLoca_ok_spec h⟩
+
+/-- `SimpleGlyph.removePadding` never panics, for every contour count and every byte string. -/
+theorem C02_removePadding_no_panic (nc : Nat) (buf : Bytes) : (GlyfDec.removePadding nc buf).noPanic :=
+  GlyfDec.removePadding_noPanic nc buf
+
+theorem C02_removePadding_cost {nc : Nat} {buf enc : Bytes} {c : Cost}
+    (h : GlyfDec.removePadding nc buf = .ok (enc, c)) : c.steps ≤ buf.length ∧ c.alloc = 0 :=
+  GlyfDec.removePadding_cost h
+
+/-- `decodeGlyphComposite` never panics and is linear. -/
+theorem C02_composite_no_panic (data : Bytes) : (GlyfLazy.decodeGlyphComposite data).noPanic :=
+  GlyfLazy.decodeGlyphComposite_noPanic data
+
+theorem C02_composite_cost (data : Bytes) (r : List Glyf.Component × Option Bytes) (c : Cost)
+    (h : GlyfLazy.decodeGlyphComposite data = .ok (r, c)) :
+    c.steps ≤ data.length + 1 ∧ c.alloc ≤ data.length + 1 := by
+  have := GlyfLazy.decodeGlyphComposite_cost data r c h; omega
+
+/-- `glyf.Decode` — loca decoding, per-glyph slicing, glyph headers, padding removal and composite
+decoding together — returns a value or an error for every (glyf, loca, format). -/
+theorem C02_glyf_no_panic (fmt : Int) (loca glyf : Bytes) :
+    (GlyfDec.decode GlyfLazy.decodeGlyphComposite fmt loca glyf).noPanic :=
+  GlyfDec.Decode_noPanic _ GlyfLazy.decodeGlyphComposite_noPanic fmt loca glyf
+
+/-- … with cost linear in |glyf| + |loca|. -/
+theorem C02_glyf_cost {fmt : Int} {loca glyf : Bytes}
+    {gg : List (Option (GlyfDec.Glyph (List Glyf.Component × Option Bytes)))} {c : Cost}
+    (h : GlyfDec.decode GlyfLazy.decodeGlyphComposite fmt loca glyf = .ok (gg, c)) :
+    c.steps ≤ 2 * glyf.length + 4 * (loca.length / 2) ∧ c.alloc ≤ glyf.length + 5 * (loca.length / 2) := by
+  have := GlyfDec.Decode_cost GlyfLazy.decodeGlyphComposite 1 1 1 1
+    (fun d r c hc => by have := GlyfLazy.decodeGlyphComposite_cost d r c hc; omega) h
+  omega
+
+/-- Bridges to C11's value-level models (Model/Glyf.lean): erasing sites and costs gives their
+`decodeLoca`, `removePadding`, `decodeComposite` and `decode` on every input. -/
+theorem C02_glyf_agrees (k : Bytes → Cost) (fmt : Int) (loca glyf : Bytes) :
+    GlyfDec.erase (GlyfDec.decodeLoca fmt loca glyf.length) = Glyf.decodeLoca fmt loca glyf.length ∧
+    GlyfLazy.toOpt (GlyfLazy.decodeGlyphComposite glyf) = Glyf.decodeComposite glyf ∧
+    GlyfDec.omap (List.map (Option.map GlyfDec.toC11))
+      (GlyfDec.erase (GlyfDec.decode (GlyfDec.compC11 k) fmt loca glyf)) = Glyf.decode fmt loca glyf :=
+  ⟨GlyfDec.decodeLoca_erase fmt loca glyf.length, GlyfLazy.decodeGlyphComposite_erase glyf,
+   GlyfDec.Decode_erase k fmt loca glyf⟩
+
+/-! ## C02_lazy_safe, TrueType part: SimpleGlyph.Decode and Components on ANY value -/
+
+/-- `SimpleGlyph.Decode` (as repaired by d60b209) returns a value or an error for EVERY
+`SimpleGlyph` value — any contour count, any bytes — not only those `glyf.Decode` hands out. -/
+theorem C02_lazy_safe_simple (nc : Int16) (buf : Bytes) : (GlyfLazy.decode nc buf).noPanic :=
+  GlyfLazy.decode_noPanic nc buf
+
+/-- Its cost is capped by the 65536-point limit and also linear in the input (at most 128 points
+per flag byte pair): both bounds. -/
+theorem C02_lazy_simple_cost (nc : Int16) (buf : Bytes) (g : Glyf.GlyphInfo) (c : Cost)
+    (h : GlyfLazy.decode nc buf = .ok (g, c)) :
+    (c.steps ≤ 2 * buf.length + 8 * 65536 + 1 ∧ c.alloc ≤ buf.length + 4 * 65536 + 1) ∧
+      c.steps ≤ 1026 * buf.length + 1 ∧ c.alloc ≤ 513 * buf.length + 1 :=
+  GlyfLazy.decode_cost nc buf g c h
+
+/-- `Glyph.Components` does not panic on anything `decodeGlyphComposite` returned (its only panic
+is the explicit one for a foreign `Data` type, which the decoder never stores). -/
+theorem C02_lazy_safe_components (data : Bytes) (cs : List Glyf.Component) (ins : Option Bytes) (c : Cost)
+    (h : GlyfLazy.decodeGlyphComposite data = .ok ((cs, ins), c)) (hlen : data.length < 2 ^ 47) :
+    (GlyfLazy.components (some (GlyfLazy.GData.composite cs ins))).noPanic :=
+  GlyfLazy.components_decoded_noPanic data cs ins c h hlen
 
 end SfntV.Props.C02
